@@ -662,6 +662,17 @@ func (h *harness) fail(what, key string, doc []byte, gen string, r implResult) {
 	h.st.ImplFailures = append(h.st.ImplFailures, m)
 }
 
+// goOnly runs a document through the implementation and the Go-side oracles without emitting a Coq case.
+func (h *harness) goOnly(doc []byte, gen string) {
+	h.noteCurrent(doc)
+	r := runImpl(doc)
+	h.st.Evaluations++
+	h.st.Hit("gen:" + gen)
+	if r.UCls == 2 || r.HCls == 2 || r.PCls == 2 || r.SCls == 2 {
+		h.fail("hashing or signing a JSON document panicked", "", doc, gen, r)
+	}
+}
+
 // addDoc runs one document through both decode paths and emits a CDoc case when the lexer accepts it.
 func (h *harness) addDoc(doc []byte, gen string) implResult {
 	h.noteCurrent(doc)
